@@ -110,6 +110,7 @@ type fnState struct {
 	inlining  int // depth of inlined calls
 	inlineRet *SV // result captured from an inlined callee return
 	strLits   map[string]string
+	invLookup *loopInfo         // loop whose invariant is being translated (scopes local names)
 	sitePos   token.Pos         // source position of the site clause being translated
 	quant     int               // >0 while translating the body of a quantifier
 	sentinels []string          // constants of leaf error sentinels seen so far
